@@ -134,25 +134,30 @@ fn ops_text(prog: &[St]) -> String {prog.iter().map(|s| s.op()).collect::<Vec<_>
 // ------------------------------------------------------------------------------------------------
 // the real pipeline
 
-fn classify(msg: &str) -> String
+/// kind of the innermost error of a diagnostic, from its structure (errkind.rs; no message text is read)
+fn classify(e: &(dyn Error + 'static)) -> String
 {
-	let nums = |s: &str| -> Vec<String> {s.split(|c: char| !c.is_ascii_digit()).filter(|x| !x.is_empty()).map(|x| x.to_owned()).collect()};
-	if msg.starts_with("address ") && msg.ends_with("is already occupied")
+	use trion::asm::directive::align::AlignError;
+	use trion::asm::directive::data::DataError;
+	use trion::asm::memory::map::PutError;
+	use trion::asm::{AsmErrorKind, SegmentError};
+	let e = crate::errkind::innermost(e);
+	if let Some(s) = e.downcast_ref::<SegmentError>()
 	{
-		format!("occupied {}", msg[8..16].to_ascii_lowercase())
+		return match s
+		{
+			SegmentError::Occupied(a) => format!("occupied {a:08x}"),
+			SegmentError::Overflow{need, have} => format!("overflow {need} {have}"),
+			SegmentError::Write(PutError::Overflow{need, have}) => format!("write {need} {have}"),
+		};
 	}
-	else if msg.starts_with("segment overflow (need") {let n = nums(msg); format!("overflow {} {}", n[0], n[1])}
-	else if msg.starts_with("segment overflow (expected") {let n = nums(msg); format!("write {} {}", n[0], n[1])}
-	else if msg.starts_with("no active segment") {"inactive".to_owned()}
-	else {format!("other:{}", msg.replace(' ', "_").replace(',', "_"))}
+	if let Some(PutError::Overflow{need, have}) = e.downcast_ref::<PutError>() {return format!("write {need} {have}");}
+	if matches!(e.downcast_ref::<DataError>(), Some(DataError::Inactive)) || matches!(e.downcast_ref::<AlignError>(), Some(AlignError::Inactive))
+		|| matches!(e.downcast_ref::<AsmErrorKind>(), Some(AsmErrorKind::Inactive)) {return "inactive".to_owned();}
+	format!("other:{}", crate::errkind::diag_kind(e).replace(' ', "_").replace(',', "_"))
 }
 
-fn innermost(e: &(dyn Error + 'static)) -> String
-{
-	let mut cur: &(dyn Error + 'static) = e;
-	while let Some(s) = cur.source() {cur = s;}
-	cur.to_string()
-}
+fn innermost<'a>(e: &'a (dyn Error + 'static)) -> &'a (dyn Error + 'static) {crate::errkind::innermost(e)}
 
 /// run a program through the real assembler; canonical `<errors> | <image>`
 fn real_run(dirs: &DirectiveList, prog: &[St]) -> String
@@ -173,17 +178,14 @@ fn real_run(dirs: &DirectiveList, prog: &[St]) -> String
 		{
 			for e in &ctx.get_errors()[from..]
 			{
-				let mut msg = e.value.to_string();
-				let mut cur = e.value.source();
-				while let Some(s) = cur {msg = s.to_string(); cur = s.source();}
-				let kind = classify(&msg);
+				let kind = classify(&e.value);
 				if e.line > nprel && e.line <= nprel + prog.len() as u32 {errs.push(format!("E{} {kind}", e.line - nprel - 1));}
 				else {errs.push(format!("L{} {kind}", e.line));}
 			}
 			ctx.get_errors().len()
 		};
 		let n = take(&ctx, &mut errs, 0);
-		if let Err(e) = ctx.close_segment() {errs.push(format!("C {}", classify(&innermost(&e))));}
+		if let Err(e) = ctx.close_segment() {errs.push(format!("C {}", classify(innermost(&e))));}
 		for t in &globals {let _ = ctx.insert_constant(&format!("g{t}"), prog[*t].value(), Realm::Global);}
 		ctx.finalize();
 		take(&ctx, &mut errs, n);
@@ -493,6 +495,243 @@ fn gen_prog(rng: &mut Rng, n: usize) -> Vec<St>
 	prog
 }
 
+// ------------------------------------------------------------------------------------------------
+// the region API called directly: `change_segment`, `ActiveSegment::write` / `write_at`, `close_segment`.
+// Assembly text reaches `write_at` only with a statement's own placeholder (overwrite inside the buffer); its two other
+// paths (overwrite + append, append at the cursor) and its overflow refusal are public API. Input: `api <op>;<op>;…`.
+
+#[derive(Clone, Debug)]
+enum AOp {Sel(u32), Wr(Vec<u8>), Wat(u32, Vec<u8>), Close}
+
+impl AOp
+{
+	fn op(&self) -> String
+	{
+		match self {AOp::Sel(a) => format!("sel:{a}"), AOp::Wr(d) => format!("wr:{}", hex(d)), AOp::Wat(a, d) => format!("wat:{a}:{}", hex(d)), AOp::Close => "cl".to_owned()}
+	}
+
+	fn parse(s: &str) -> Option<AOp>
+	{
+		let w: Vec<&str> = s.split(':').collect();
+		match w.as_slice()
+		{
+			["sel", a] => Some(AOp::Sel(a.parse().ok()?)),
+			["wr", d] => Some(AOp::Wr(unhex(d)?)),
+			["wat", a, d] => Some(AOp::Wat(a.parse().ok()?, unhex(d)?)),
+			["cl"] => Some(AOp::Close),
+			_ => None,
+		}
+	}
+}
+
+fn seg_err(e: &trion::asm::SegmentError) -> String {classify(e)}
+
+fn dump_map(ctx: &Context) -> String
+{
+	let mut img = String::from("[");
+	for (i, (r, d)) in ctx.output().iter().enumerate()
+	{
+		if i > 0 {img.push(',');}
+		img.push_str(&format!("{:08x}:{}", r.get_first(), hex(d)));
+	}
+	img.push(']');
+	img
+}
+
+fn real_api(dirs: &DirectiveList, ops: &[AOp]) -> String
+{
+	let mut outs: Vec<String> = Vec::new();
+	let mut ctx = Context::new(&Arm6M, dirs);
+	for op in ops
+	{
+		let r = guarded(|| match op
+		{
+			AOp::Sel(a) => match ctx.change_segment(*a) {Ok(_) => "ok".to_owned(), Err(e) => seg_err(&e)},
+			AOp::Wr(d) => match ctx.active_mut() {None => "inactive".to_owned(), Some(s) => match s.write(d) {Ok(()) => "ok".to_owned(), Err(e) => seg_err(&e)}},
+			AOp::Wat(a, d) => match ctx.active_mut() {None => "inactive".to_owned(), Some(s) => match s.write_at(*a, d) {Ok(()) => "ok".to_owned(), Err(e) => seg_err(&e)}},
+			AOp::Close => match ctx.close_segment() {Ok(_) => "ok".to_owned(), Err(e) => seg_err(&e)},
+		});
+		match r
+		{
+			Ok(o) => outs.push(o),
+			Err(_) => {outs.push("panic".to_owned()); return format!("{} | panic | panic", outs.join(","));},
+		}
+	}
+	let active = match guarded(|| ctx.active().map(|s| (s.base_addr(), s.curr_addr(), s.len(), s.remaining(), s.has_remaining(s.remaining()), s.has_remaining(s.remaining() + 1), ctx.curr_addr())))
+	{
+		Err(_) => "panic".to_owned(),
+		Ok(None) => "-".to_owned(),
+		Ok(Some((b, c, l, r, fits, over, c2))) => if fits && !over && c2 == Some(c) {format!("{b:08x}:{c}:{l}:{r}")} else {format!("{b:08x}:{c}:{l}:{r}:inconsistent-accessors")},
+	};
+	format!("{} | {active} | {}", outs.join(","), dump_map(&ctx))
+}
+
+/// what the documentation of the API promises, over a byte dictionary: a region never grows into an occupied address or
+/// past 0xFFFFFFFF, a refused call changes nothing, `write_at` puts exactly the given bytes at the given address of the
+/// region being written and leaves every other byte (of this and of all closed regions) as it was
+fn oracle_api(ops: &[AOp]) -> Option<String>
+{
+	let mut closed: BTreeMap<u32, u8> = BTreeMap::new();
+	let mut active: Option<(u32, Vec<u8>, u64)> = None; // base, bytes, capacity
+	let mut outs = Vec::new();
+	fn commit(closed: &mut BTreeMap<u32, u8>, active: &mut Option<(u32, Vec<u8>, u64)>)
+	{
+		if let Some((b, d, _)) = active.take() {for (k, x) in d.iter().enumerate() {closed.insert(b + k as u32, *x);}}
+	}
+	for op in ops
+	{
+		match op
+		{
+			AOp::Sel(a) =>
+			{
+				if let Some((b, d, _)) = &active {if *b == *a && d.is_empty() {outs.push("ok".to_owned()); continue;}}
+				commit(&mut closed, &mut active);
+				if closed.contains_key(a) {outs.push(format!("occupied {a:08x}")); continue;}
+				let cap = closed.range(*a..).next().map(|(k, _)| (*k - *a) as u64).unwrap_or((1u64 << 32) - *a as u64);
+				active = Some((*a, Vec::new(), cap));
+				outs.push("ok".to_owned());
+			},
+			AOp::Wr(d) => match &mut active
+			{
+				None => outs.push("inactive".to_owned()),
+				Some((_, buf, cap)) =>
+				{
+					let have = *cap - buf.len() as u64;
+					if d.len() as u64 > have {outs.push(format!("overflow {} {have}", d.len()));} else {buf.extend_from_slice(d); outs.push("ok".to_owned());}
+				},
+			},
+			AOp::Wat(a, d) => match &mut active
+			{
+				None => outs.push("inactive".to_owned()),
+				Some((b, buf, cap)) =>
+				{
+					// precondition of the call: the address lies in the written part of the region or at its cursor
+					let cur = (*b as u64 + buf.len() as u64).min(0xFFFF_FFFF);
+					if (*a as u64) < *b as u64 || *a as u64 > cur || (*a - *b) as usize > buf.len() {return None;}
+					let start = (*a - *b) as usize;
+					let grow = (start + d.len()).saturating_sub(buf.len());
+					let have = *cap - buf.len() as u64;
+					if grow as u64 > have {outs.push(format!("overflow {grow} {have}")); continue;}
+					if buf.len() < start + d.len() {buf.resize(start + d.len(), 0);}
+					buf[start..start + d.len()].copy_from_slice(d);
+					outs.push("ok".to_owned());
+				},
+			},
+			AOp::Close => {commit(&mut closed, &mut active); outs.push("ok".to_owned());},
+		}
+	}
+	let act = match &active
+	{
+		None => "-".to_owned(),
+		Some((b, d, cap)) => format!("{b:08x}:{}:{}:{}", (*b as u64 + d.len() as u64).min(0xFFFF_FFFF), d.len(), *cap - d.len() as u64),
+	};
+	let mut img = String::from("[");
+	let mut prev: Option<u32> = None;
+	for (&a, &b) in &closed
+	{
+		if prev.map(|p| p as u64 + 1) != Some(a as u64)
+		{
+			if prev.is_some() {img.push(',');}
+			img.push_str(&format!("{a:08x}:"));
+		}
+		img.push_str(&format!("{b:02x}"));
+		prev = Some(a);
+	}
+	img.push(']');
+	Some(format!("{} | {act} | {img}", outs.join(",")))
+}
+
+fn check_api(cx: &mut Cx, dirs: &DirectiveList, ops: &[AOp], reply: &str)
+{
+	let text = ops.iter().map(|o| o.op()).collect::<Vec<_>>().join(";");
+	let input = format!("api {text}");
+	let imp = real_api(dirs, ops);
+	cx.report.case(Some(&imp));
+	for o in imp.split(" | ").next().unwrap_or("").split(',')
+	{
+		cx.report.hit(&format!("api call: {}", o.split(' ').next().unwrap_or("")));
+	}
+	cx.report.compare("model.seg.api", &input, reply, &imp);
+	match oracle_api(ops)
+	{
+		None => cx.report.hit("api program: precondition of write_at violated (model comparison only)"),
+		Some(want) => if imp != want {cx.report.oracle_fail(input, format!("the API contract requires {want}; the implementation produced {imp}"));},
+	}
+}
+
+fn gen_api(rng: &mut Rng) -> Vec<AOp>
+{
+	let centre: u64 = match rng.below(3) {0 => 0x100, 1 => 0xFFFF_FFF0, _ => rng.below(1 << 32)};
+	let n = 2 + rng.below(14) as usize;
+	let mut ops = Vec::new();
+	// shadow of the active region for choosing interesting addresses
+	let (mut base, mut len): (Option<u64>, u64) = (None, 0);
+	let bytes = |rng: &mut Rng, n: u64| -> Vec<u8> {(0..n).map(|_| rng.next() as u8).collect()};
+	for _ in 0..n
+	{
+		let op = match if base.is_none() && !rng.chance(1, 6) {0} else {rng.below(10)}
+		{
+			0 | 1 => {let a = (centre as i64 + rng.range(-12, 20)).clamp(0, 0xFFFF_FFFF) as u32; AOp::Sel(a)},
+			2 | 3 | 4 => {let k = rng.below(6); AOp::Wr(bytes(rng, k))},
+			5 if rng.chance(1, 2) => AOp::Close,
+			_ =>
+			{
+				let k = rng.below(7);
+				let a = match base
+				{
+					// inside the buffer, at the cursor, and (rarely) outside the allowed range
+					Some(b) if !rng.chance(1, 12) => (b + rng.below(len + 1)).min(0xFFFF_FFFF) as u32,
+					Some(b) => (b as i64 + rng.range(-2, len as i64 + 3)).clamp(0, 0xFFFF_FFFF) as u32,
+					None => centre.min(0xFFFF_FFFF) as u32,
+				};
+				AOp::Wat(a, bytes(rng, k))
+			},
+		};
+		match &op
+		{
+			AOp::Sel(a) => {if !(base == Some(*a as u64) && len == 0) {base = Some(*a as u64); len = 0;}},
+			AOp::Wr(d) => len += d.len() as u64,
+			AOp::Wat(a, d) => if let Some(b) = base {len = len.max((*a as u64).saturating_sub(b) + d.len() as u64);},
+			AOp::Close => {base = None; len = 0;},
+		}
+		ops.push(op);
+	}
+	// half of the programs end with the region still open: its accessors (base, cursor, length, remaining) are compared
+	if rng.chance(1, 2) {ops.push(AOp::Close);}
+	ops
+}
+
+fn api_section(cx: &mut Cx, dirs: &DirectiveList)
+{
+	let fixed = [
+		"sel:256;wr:0102;wat:257:aabbcc;wat:259:dd;wat:256:ee;cl",
+		"sel:256;wr:0102;wat:258:aabb;wat:258:;wat:260:;cl",
+		"sel:262;wr:01;sel:256;wr:010203040506;wat:261:0708;wat:260:0708;wat:262:;wat:262:09;cl",
+		"sel:4294967295;wr:01;wat:4294967295:02;wat:4294967295:0203;cl",
+		"sel:4294967294;wat:4294967294:0102;wat:4294967295:03;wat:4294967295:0304;cl",
+		"sel:4294967292;wr:01020304;wat:4294967295:05;wat:4294967295:0506;wr:;wr:00;cl",
+		"wat:1:00;wr:00;cl;sel:5;sel:5;wr:aa;sel:5;sel:6;sel:4;wr:bb;wr:cc;cl",
+		"sel:5;wat:7:00",
+		"sel:5;wr:0000;wat:4:00",
+		"sel:5;wr:0000;wat:8:00",
+	];
+	for f in fixed
+	{
+		let ops: Vec<AOp> = f.split(';').map(|o| AOp::parse(o).unwrap()).collect();
+		let reply = cx.model.ask(&format!("seg api {f}"));
+		check_api(cx, dirs, &ops, &reply);
+	}
+	let n = if cx.thorough() {40_000} else {4_000};
+	let progs: Vec<Vec<AOp>> = (0..n).map(|_| {let mut r = cx.rng.fork(); gen_api(&mut r)}).collect();
+	cx.report.hit_n("api programs", n);
+	for chunk in progs.chunks(1024)
+	{
+		let lines: Vec<String> = chunk.iter().map(|p| format!("seg api {}", p.iter().map(|o| o.op()).collect::<Vec<_>>().join(";"))).collect();
+		let replies = cx.model.ask_many(&lines);
+		for (p, r) in chunk.iter().zip(replies.iter()) {check_api(cx, dirs, p, r);}
+	}
+}
+
 pub fn run(_id: &str, cx: &mut Cx)
 {
 	cx.report.rule = "exhaustive: every program of length <= depth over a 26-statement alphabet (8 `.addr` targets, .dhex/.dstr of 1-4 bytes, .du8/.du16/.du32/NOP/UDF.W with a known value, \
@@ -521,6 +760,19 @@ random: 40-statement programs at both ends of the address space and elsewhere. n
 					{
 						let reply = cx.model.ask(&format!("seg run {}", ops_text(&prog)));
 						check_prog(cx, &dirs, &prog, &reply);
+					},
+				}
+			},
+			["api"] | ["api", ""] => {let reply = cx.model.ask("seg api"); check_api(cx, &dirs, &[], &reply);},
+			["api", ops] =>
+			{
+				match ops.split(';').filter(|s| !s.is_empty()).map(AOp::parse).collect::<Option<Vec<AOp>>>()
+				{
+					None => cx.report.oracle_fail(input.clone(), "unrecognised replay input"),
+					Some(prog) =>
+					{
+						let reply = cx.model.ask(&format!("seg api {}", prog.iter().map(|o| o.op()).collect::<Vec<_>>().join(";")));
+						check_api(cx, &dirs, &prog, &reply);
 					},
 				}
 			},
@@ -558,6 +810,8 @@ random: 40-statement programs at both ends of the address space and elsewhere. n
 		check_prog(cx, &dirs, &prog, &reply);
 		cx.report.sample(format!("run {f} -> {reply}"));
 	}
+
+	api_section(cx, &dirs);
 
 	let depth = if cx.thorough() {6} else {5};
 	exhaustive(cx, &dirs, depth);
